@@ -161,3 +161,11 @@ Theorem C07_example_verify :
   r_current r2 = [] /\ map (map c_fp) (r_expired r2) = [[3; 2; 1]]%N /\ r_err r2 = Some EExpired.
 Proof. exact example_verify. Qed.
 Print Assumptions C07_example_verify.
+
+(* documented incompleteness of the memo table (not part of the property): see the proof file *)
+Theorem C07_memo_example :
+  let r := verify memo_sig (fun _ => None) memo_L
+                  (mkOptions [memo_R] [memo_C; memo_A; memo_D; memo_A'] 300 [] []) in
+  map (map c_fp) (r_current r) = [[6; 3; 2; 1]; [6; 3; 2; 1]]%N /\ r_err r = None.
+Proof. exact example_memo. Qed.
+Print Assumptions C07_memo_example.
